@@ -364,7 +364,9 @@ func (c *Ctx) c07ExpiredAccessors(b BK) {
 	}
 	for _, m := range []struct{ meth, field string }{{"Value", "V"}, {"ExpiredAt", "E"}} {
 		name := et + "." + m.meth
-		_, paths, _, err := c.runFunc(name, pw.Policy{Inline: func(fn *types.Func, d int) bool { return !fn.Exported() && fn.Pkg() != nil && fn.Pkg().Name() == "cache" }})
+		_, paths, _, err := c.runFunc(name, pw.Policy{Inline: func(fn *types.Func, d int) bool {
+			return !fn.Exported() && fn.Pkg() != nil && fn.Pkg().Name() == "cache"
+		}})
 		if err != nil {
 			r.Unknown("R07.2", name, err.Error())
 			continue
